@@ -71,6 +71,8 @@ func c04Class(r interface{}) string {
 		return "nosuitable"
 	case strings.Contains(msg, "args length not match"):
 		return "arglen"
+	case strings.Contains(msg, "returns lenth not match"):
+		return "retlen"
 	case strings.Contains(msg, "Call When("):
 		return "whenerr"
 	case strings.Contains(msg, "create param match fail"):
@@ -436,7 +438,11 @@ func c04Run(toks []string) (obs string) {
 				case w != nil && mode != "callm":
 					w.Return(vals...)
 				case mode == "eval":
-					create(nil, vals)
+					def := vals
+					if def == nil { // what DefMocker.Return / MethodMocker.Return do (mocker.go:301,560)
+						def = []interface{}{}
+					}
+					create(nil, def)
 				default:
 					w = exported.Return(vals...)
 				}
